@@ -7,6 +7,7 @@ code on stable vocabularies by the oracle of ./check C13.
 import RosedVerif.Spec.AlignLemmas
 import RosedVerif.Model.AlignRefine
 import RosedVerif.Model.BridgeAlign
+import RosedVerif.Model.OpsStructure
 namespace RosedVerif.Props
 open RosedVerif.Spec
 variable {α : Type} (tk : Toks α)
@@ -74,5 +75,35 @@ theorem C13_code_points {V : List (List Int)} (hV : VocabStable V = true) (hsp :
       Spec.alignCenter ⟨cxB.isSpace, cxB.sp, cxB.hy⟩ w toks :=
   ⟨alignLeft_bridge_clusters hV hsp toks ht w, alignRight_bridge_clusters hV hsp toks ht w,
    alignCenter_bridge_clusters hV hsp toks ht w⟩
+
+open RosedVerif.OpsStructure
+
+/-- alignment None or an unknown value returns the editor unchanged (any context, any editor, paragraph mode too) -/
+theorem C13_none_unchanged {α : Type} [DecidableEq α] (cx : Ctx α) (ed : Editor α)
+    (align width : Int)
+    (o : Options α)
+    (hal : align = Gen.alignNone ∨
+      (align ≠ Gen.alignLeft ∧ align ≠ Gen.alignRight ∧ align ≠ Gen.alignCenter)) :
+    ed.alignOpts cx align width o = .ok ed :=
+  alignOpts_none cx ed align width o hal
+
+/-- Align leaves the number of lines unchanged, and output line i is the aligned input line i (any context and editor, non-paragraph mode; for an unbordered separator that no aligned line contains — both conditions are needed, `OpsStructure` has the counterexamples); the Options on the result are the receiver's -/
+theorem C13_line_count {α : Type} [DecidableEq α] (cx : Ctx α) (ed : Editor α)
+    (align width : Int)
+    (o : Options α)
+    (hal : align = Gen.alignLeft ∨ align = Gen.alignRight ∨ align = Gen.alignCenter)
+    (hpp : (o.withDefaults cx).preservePara = false)
+    (hsep : (o.withDefaults cx).lineSep ≠ [])
+    (hu : Unbordered (o.withDefaults cx).lineSep)
+    (hfree : ∀ l ∈ inLines cx ed o,
+      indexOf (o.withDefaults cx).lineSep (alignFn cx align l width) = none) :
+    ∃ r, ed.alignOpts cx align width o = .ok r ∧ r.opts = ed.opts ∧
+      (splitOn r.text (o.withDefaults cx).lineSep).length =
+        (splitOn ed.text (o.withDefaults cx).lineSep).length ∧
+      ∀ i, i < (inLines cx ed o).length →
+        (splitOn r.text (o.withDefaults cx).lineSep).getD i [] =
+          alignFn cx align ((inLines cx ed o).getD i []) width ∧
+        (splitOn ed.text (o.withDefaults cx).lineSep).getD i [] = (inLines cx ed o).getD i [] :=
+  alignOpts_lines cx ed align width o hal hpp hsep hu hfree
 
 end RosedVerif.Props
